@@ -143,8 +143,8 @@ fn write_glyf_loca(
                 last += 1;
             }
             let g = &subset_glyphs[i as usize];
-            let padded_len = padded_size(g.len());
-            offset += padded_len as u32;
+            // glyphs are written without padding when offsets are long
+            offset += g.len() as u32;
             value = offset.to_be_bytes();
             loca_out.extend_from_slice(&value);
 
